@@ -17,7 +17,8 @@
 (***************************************************************************)
 EXTENDS ProfileModel, Json
 
-CONSTANTS Tier, Emit, Broken
+CONSTANTS Tier, Emit, Broken,
+          Part      \* 0 = the whole catalogue; 1..5 = a fifth of it (the check runs the parts as parallel TLC processes)
 
 \* ------------------------------------------------------------- catalogue
 F  == Fn("f", "f", "a.c", 0)
@@ -48,11 +49,12 @@ Small(dummy) == {S \in SUBSET Universe : Cardinality(S) <= (IF Tier # "thorough"
 Opt0 == [focus |-> None, ignore |-> None, hide |-> None, show |-> None, showfrom |-> None]
 Singles(dummy) == { [Opt0 EXCEPT ![o] = Rx(S)] : o \in {"focus", "ignore", "hide", "show", "showfrom"},
                                           S \in (IF Tier # "thorough" THEN {T \in SUBSET Universe : Cardinality(T) <= 2} ELSE SUBSET Universe) }
-OptPairs == { <<"focus", "ignore">>, <<"focus", "hide">>, <<"focus", "show">>, <<"ignore", "hide">>, <<"hide", "show">>,
-              <<"show", "showfrom">>, <<"hide", "showfrom">>, <<"focus", "showfrom">>, <<"ignore", "show">>, <<"ignore", "showfrom">> }
+OptPairSeq == << <<"focus", "ignore">>, <<"focus", "hide">>, <<"focus", "show">>, <<"ignore", "hide">>, <<"hide", "show">>,
+                 <<"show", "showfrom">>, <<"hide", "showfrom">>, <<"focus", "showfrom">>, <<"ignore", "show">>, <<"ignore", "showfrom">> >>
+OptPairs == { OptPairSeq[i] : i \in { j \in DOMAIN OptPairSeq : Part = 0 \/ (j % 4) + 1 = Part } }
 \* (thorough: the first option of a pair ranges over single names, the second over sets of up to two: TLC caps an enumerated set at 10^6)
 Pairs(dummy) == { [Opt0 EXCEPT ![p[1]] = Rx(S1), ![p[2]] = Rx(S2)] : p \in OptPairs, S1 \in {{n} : n \in Universe}, S2 \in Small(0) \ {{}} }
-Options(dummy) == Singles(0) \cup Pairs(0)
+Options(dummy) == (IF Part \in {0, 5} THEN Singles(0) ELSE {}) \cup (IF Part = 5 THEN {} ELSE Pairs(0))
 NameCases(dummy) == { [kind |-> "name", samples |-> p, opt |-> o] : p \in Profiles(0), o \in Options(0) }
 
 \* ------------------------------------------------------------- declarative: names
@@ -128,7 +130,7 @@ TagKeysD(samples, show, hide) ==
 NoTag == [kind |-> "none"]
 TagSamples(dummy) ==
   { << Smp(<<LF>>, <<1, 1>>, a, n1), Smp(<<LG>>, <<1, 2>>, b, n2), Smp(<<LH>>, <<1, 4>>, <<>>, <<>>) >> :
-      a \in { <<SLab("k", <<"x">>)>>, <<SLab("k", <<"x", "y">>)>>, <<SLab("k", <<"x">>), SLab("j", <<"z">>)>> },
+      a \in { <<SLab("k", <<"x">>)>>, <<SLab("k", <<"x", "y">>)>>, <<SLab("k", <<"x">>), SLab("j", <<"z">>)>>, <<SLab("k", <<"a=b">>)>> },
       b \in { <<>>, <<SLab("k", <<"y">>)>>, <<SLab("j", <<"x">>)>> },
       n1 \in { <<>>, <<NLab("n", <<2048>>, <<"bytes">>)>>, <<NLab("n", <<2500>>, <<"bytes">>)>> },
       n2 \in { <<>>, <<NLab("n", <<1024, 4096>>, <<"bytes", "bytes">>)>>, <<NLab("m", <<2048>>, <<"bytes">>)>> } }
@@ -136,6 +138,7 @@ TagExprs == { [kind |-> "all", exprs |-> <<{"k:x"}>>], [kind |-> "all", exprs |-
               [kind |-> "all", exprs |-> <<{"k:x", "k:y"}>>], [kind |-> "all", exprs |-> <<{"j:x", "j:z"}, {"k:y", "k:x"}>>],
               [kind |-> "key", key |-> "k", exprs |-> <<{"x"}>>], [kind |-> "key", key |-> "k", exprs |-> <<{"y"}, {"z"}>>],
               [kind |-> "key", key |-> "j", exprs |-> <<{"x", "z"}>>],
+              [kind |-> "key", key |-> "k", exprs |-> <<{"a=b"}>>],            \* the value expression itself contains '=': the key ends at the FIRST one
               [kind |-> "range", key |-> "", lo |-> 2048, hi |-> 2048, form |-> "2kb"],
               [kind |-> "range", key |-> "", lo |-> 0 - 1000000, hi |-> 2048, form |-> ":2kb"],
               [kind |-> "range", key |-> "", lo |-> 2048, hi |-> 1000000, form |-> "2kb:"],
@@ -159,7 +162,7 @@ GuardCases == { [kind |-> "name",
                  opt |-> o] :
                  o \in { [Opt0 EXCEPT !.focus = Rx({"g"}), !.hide = Rx({"g"})], [Opt0 EXCEPT !.ignore = Rx({"f"})],
                          [Opt0 EXCEPT !.focus = Rx({"h"})] } }
-Cases == IF Tier = "guard" THEN GuardCases ELSE NameCases(0) \cup TagCases(0)
+Cases == IF Tier = "guard" THEN GuardCases ELSE NameCases(0) \cup (IF Part \in {0, 5} THEN TagCases(0) ELSE {})
 
 \* ------------------------------------------------------------- operational: names
 VARIABLES case, pc,
